@@ -970,6 +970,21 @@ def _norm(j):
     return json.loads(json.dumps(j))
 
 
+_OTHER: List[Any] = []
+
+
+def _other_json():
+    """the JSON view of a small fixed scan (region, line with words, table): rebuilt between two rebuilds of a case"""
+    if not _OTHER:
+        pdm = _pdm()
+        w = pdm.PageXMLWord(doc_id='w1', coords=_coords([[0, 0], [5, 0], [5, 5], [0, 5]]), text='other')
+        l = pdm.PageXMLTextLine(doc_id='l1', coords=_coords([[0, 0], [9, 0], [9, 9], [0, 9]]), text='other words', words=[w])
+        r = pdm.PageXMLTextRegion(doc_id='r1', coords=_coords([[0, 0], [20, 0], [20, 20], [0, 20]]), lines=[l])
+        sc = pdm.PageXMLScan(doc_id='s1', coords=_coords([[0, 0], [50, 0], [50, 50], [0, 50]]), text_regions=[r])
+        _OTHER.append(json.loads(json.dumps(_quiet(lambda: sc.json))))
+    return copy.deepcopy(_OTHER[0])
+
+
 def _rebuild(src) -> Dict[str, Any]:
     from pagexml.parser import parse_pagexml_from_json
     try:
@@ -1026,7 +1041,11 @@ class C06(Check):
         'the scan the XML parser assembles is WF.  WF and JV are additionally evaluated by the driver on every generated and '
         'every rebuilt document.  Not proved (sampled on every case): that the real json.dumps/json.loads is the model\'s `norm` '
         '(int keys -> str, tuples -> lists; compared with the real encoder), finiteness of float literals (opaque), and that the '
-        'metadata the real parser computes from `custom` attributes is what the raw trees of C06_parsed_wf carry (C01/C11).')
+        'metadata the real parser computes from `custom` attributes is what the raw trees of C06_parsed_wf carry (C01/C11).  '
+        'Histories (wave 4, oracle only; the model is pure): the source document is read again (JSON view and attributes) '
+        'after it was exported and rebuilt, the dictionary handed to parse_pagexml_from_json is compared with its encoding '
+        'taken before, another document is rebuilt in between, the same dictionary is rebuilt a second time and the first '
+        'rebuilt document is read again afterwards.')
     assumptions = [
         'abstraction: attributes that the library only ever tests for truthiness (orientation, xheight, cornerpoints) are '
         'identified with None when falsy (0.0, 0, ""), reading_order None with {}; main_type/domain are class constants',
@@ -1127,8 +1146,11 @@ class C06(Check):
         rs = _rebuild(s)
         rd = _rebuild(j0)
         out['str_in'] = _pv(json.loads(s))
+        obj_d = None
         for name, r in (('dict', rd), ('str', rs)):
             obj = r.pop('_obj', None)
+            if name == 'dict':
+                obj_d = obj
             out[name] = r
             if obj is not None and name == 'str':
                 try:
@@ -1138,6 +1160,44 @@ class C06(Check):
                     out['second'] = r2
                 except Exception as e:  # noqa
                     out['second'] = {'err': err_name(e)}
+        # histories (the model is pure: every later look has the answer of the first): the SOURCE document read again
+        # after it was exported and rebuilt twice; the dictionary handed to the rebuilder looked at again; another
+        # document rebuilt in this process; the same dictionary rebuilt a second time; the first rebuilt document
+        # read again after all that.  Only what differs is recorded (`hist`: [key, description]).
+        hist: List[List[str]] = []
+        try:
+            d = _first_diff(out['njson'], _norm(_quiet(lambda: doc.json)))
+            if d is not None:
+                hist.append(['source-changed', f'doc.json read again after the round trips differs at {d}'])
+            try:
+                a1 = abstract(doc)
+            except ValueError:
+                a1 = a0
+            d = _first_diff(_observed(a0), _observed(a1))
+            if d is not None:
+                hist.append(['source-changed', f'an attribute of the source document changed by exporting / rebuilding, at {d}'])
+            if json.dumps(j0) != s:
+                hist.append(['input-dict-changed', 'the dictionary handed to parse_pagexml_from_json was changed by rebuilding'])
+            _rebuild(_other_json())
+            rd2 = _rebuild(j0)
+            obj2 = rd2.pop('_obj', None)
+            if ('njson' in rd) != ('njson' in rd2) or rd.get('err') != rd2.get('err') or rd.get('none') != rd2.get('none'):
+                hist.append(['not-repeatable', f'rebuilding the same dictionary a second time: '
+                                               f'{ {k: rd2.get(k) for k in ("err", "none", "json_err", "cls")} }, the first time '
+                                               f'{ {k: rd.get(k) for k in ("err", "none", "json_err", "cls")} }'])
+            elif 'njson' in rd:
+                d = _first_diff(rd['njson'], rd2['njson'])
+                if d is not None:
+                    hist.append(['not-repeatable', f'rebuilding the same dictionary a second time (after another document '
+                                                   f'was rebuilt) gives a document whose JSON view differs at {d}'])
+                if obj_d is not None:
+                    d = _first_diff(rd['njson'], _norm(_quiet(lambda: obj_d.json)))
+                    if d is not None:
+                        hist.append(['rebuilt-changed', f'the JSON view of the rebuilt document, read again later, differs at {d}'])
+        except Exception as e:  # noqa — an exception of the real code on a used object is an outcome, not a crash
+            hist.append(['raises-later', f'reading / rebuilding again raised {err_name(e)}'])
+        if hist:
+            out['hist'] = hist
         self._abs[id(case)] = (a0, out['json'], out['str_in'])
         return out
 
@@ -1264,6 +1324,8 @@ class C06(Check):
                 d = _first_diff(_observed(out['abs']), _observed(r['abs']))
                 if d is not None:
                     bad('attr:' + _diff_key(d), f'{name} form: attribute of the rebuilt document differs at {d}')
+        for key, what in out.get('hist') or []:
+            bad(key, what)
         sec = out.get('second')
         if sec is not None:
             if 'err' in sec or sec.get('none') or 'json_err' in sec:
